@@ -16,3 +16,48 @@ out = os.path.join(os.path.dirname(os.path.dirname(os.path.abspath(__file__))), 
 with open(out, "w") as fh:
     fh.write("\n".join(sorted(ids)) + "\n")
 print(len(ids), "ids ->", out)
+
+# ---- all function ids of the workspace crates (a function that is NOT in this list is new: candidate for "the renamed anchor")
+allids = set()
+for cfg in ("trusted", "full"):
+    p = Program(cfg)
+    for f in p.fns.values():
+        if not f.is_closure() and f.crate.startswith(("warp_", "echo_")):
+            allids.add(f.id)
+out2 = os.path.join(os.path.dirname(out), "known_all_fns.txt")
+with open(out2, "w") as fh:
+    fh.write("\n".join(sorted(allids)) + "\n")
+print(len(allids), "ids ->", out2)
+
+# ---- signatures of the functions the rules name (anchors), recorded by running every property module once
+import importlib, json
+from rules import engine
+from rules.run import Ctx
+rec = {}
+orig = engine.Program.fn
+
+
+def recording_fn(self, path):
+    f = orig(self, path)
+    try:
+        rec[f.id] = [list(f.locals[1:f.argc + 1]), f.locals[0]]
+    except Exception:
+        pass
+    return f
+
+
+engine.Program.fn = recording_fn
+for i in range(1, 21):
+    pid = "C%02d" % i
+    mod = importlib.import_module("rules.props." + pid)
+    for tier_cfg in (None, "full"):
+        ctx = Ctx(pid, "quick")
+        ctx.cfg_override = tier_cfg
+        try:
+            mod.run(ctx)
+        except Exception as e:
+            print("note:", pid, tier_cfg, type(e).__name__, str(e)[:80])
+engine.Program.fn = orig
+out3 = os.path.join(os.path.dirname(out), "anchor_sigs.json")
+json.dump(rec, open(out3, "w"), indent=0, sort_keys=True)
+print(len(rec), "anchor signatures ->", out3)
